@@ -58,13 +58,18 @@ Ltac inv_if H :=
   end.
 
 (** ** bank primitives: every one returns the state with only ledger and supply replaced *)
-Definition bank_only (s s' : state) : Prop := exists B S, s' = upd_bank s B S.
+Definition bank_only (s s' : state) : Prop :=
+  exists B S, s' = upd_bank s B S
+    /\ (NoDup (keys (bank s)) -> NoDup (keys B)) /\ (NoDup (keys (supply s)) -> NoDup (keys S)).
 
 Lemma bank_only_refl s : bank_only s s.
-Proof. exists (bank s), (supply s). destruct s; reflexivity. Qed.
+Proof. exists (bank s), (supply s). split; [destruct s; reflexivity|auto]. Qed.
 
 Lemma bank_only_trans s1 s2 s3 : bank_only s1 s2 -> bank_only s2 s3 -> bank_only s1 s3.
-Proof. intros (B & S & ->) (B' & S' & ->). exists B', S'. reflexivity. Qed.
+Proof.
+  intros (B & S & -> & HB & HS) (B' & S' & -> & HB' & HS'). exists B', S'.
+  split; [reflexivity|]. simpl in HB', HS'. auto.
+Qed.
 
 Lemma bank_mint_inv s d x s' : bank_mint s d x = ROk s' ->
   0 <= x /\ s' = upd_bank s (set (MODULE, d) (balance s MODULE d + x) (bank s)) (set d (supply_of s d + x) (supply s)).
@@ -95,11 +100,20 @@ Lemma bank_pay_inv s to d x s' : bank_pay s to d x = ROk s' -> blocked to = fals
 Proof. unfold bank_pay. destruct (blocked to); [discriminate|]. auto. Qed.
 
 Lemma bank_mint_only s d x s' : bank_mint s d x = ROk s' -> bank_only s s'.
-Proof. intros H. apply bank_mint_inv in H. destruct H as [_ ->]. eexists _, _. reflexivity. Qed.
+Proof.
+  intros H. apply bank_mint_inv in H. destruct H as [_ ->]. eexists _, _.
+  split; [reflexivity|]. split; intros; apply keys_set_NoDup; assumption.
+Qed.
 Lemma bank_burn_only s d x s' : bank_burn s d x = ROk s' -> bank_only s s'.
-Proof. intros H. apply bank_burn_inv in H. destruct H as [_ ->]. eexists _, _. reflexivity. Qed.
+Proof.
+  intros H. apply bank_burn_inv in H. destruct H as [_ ->]. eexists _, _.
+  split; [reflexivity|]. split; intros; apply keys_set_NoDup; assumption.
+Qed.
 Lemma bank_send_only s f t d x s' : bank_send s f t d x = ROk s' -> bank_only s s'.
-Proof. intros H. apply bank_send_inv in H. destruct H as [_ ->]. eexists _, _. reflexivity. Qed.
+Proof.
+  intros H. apply bank_send_inv in H. destruct H as [_ ->]. eexists _, _.
+  split; [reflexivity|]. split; [|auto]. intros. cbv zeta. apply keys_set_NoDup, keys_set_NoDup. assumption.
+Qed.
 Lemma bank_pay_only s t d x s' : bank_pay s t d x = ROk s' -> bank_only s s'.
 Proof. intros H. apply bank_pay_inv in H. destruct H as [_ H]. eapply bank_send_only; eassumption. Qed.
 
@@ -188,4 +202,8 @@ Lemma bank_only_fields s s' : bank_only s s' ->
   tokens s' = tokens s /\ minunits s' = minunits s /\ owned s' = owned s /\ contracts s' = contracts s
   /\ burned s' = burned s /\ erc20 s' = erc20 s /\ pars s' = pars s /\ registry s' = registry s
   /\ next_contract s' = next_contract s /\ evm_mode s' = evm_mode s.
-Proof. intros (B & S & ->). repeat split. Qed.
+Proof. intros (B & S & -> & _ & _). repeat split. Qed.
+
+Lemma bank_only_nodup s s' : bank_only s s' ->
+  (NoDup (keys (bank s)) -> NoDup (keys (bank s'))) /\ (NoDup (keys (supply s)) -> NoDup (keys (supply s'))).
+Proof. intros (B & S & -> & HB & HS). split; assumption. Qed.
